@@ -180,4 +180,187 @@ theorem readback_correct {s : State} {σ : Store} (R : Refines s σ) :
         rw [readback_of_repN _ _ _ _ a.1 f hf, ihv _ a.2]
   exact this _ _ a
 
+/-! ### nothing else changes -/
+
+/-- the variables a statement may write -/
+def targets : Stmt → List Nat
+  | .assign x _ => [x]
+  | .setIdx x _ _ => [x]
+  | .append x _ _ => [x]
+  | .pop y x _ => [x, y]
+  | .remove y x _ _ => [x, y]
+  | .consume y x _ => [x, y]
+  | .swap x _ y _ => [x, y]
+
+theorem get_set_ne (σ : Store) (x z : Nat) (t : Tree) (h : z ≠ x) : Store.get (σ.set x t) z = Store.get σ z := by
+  simp [Store.get, List.getD, List.getElem?_set_ne (Ne.symm h)]
+
+theorem spec_extract_others (σ : Store) (φ : Tree → Option (Tree × Tree)) (y x z : Nat) (path : List Int)
+    (hx : z ≠ x) (hy : z ≠ y) : Store.get (Store.extract σ φ y x path).1 z = Store.get σ z := by
+  unfold Store.extract
+  split
+  · split
+    · rfl
+    · simp only [get_set_ne _ _ _ _ hy, get_set_ne _ _ _ _ hx]
+  · rfl
+
+/-- Spec level: a statement writes only its target variables -/
+theorem spec_others_unchanged (σ : Store) (st : Stmt) (z : Nat) (hz : z ∉ targets st) :
+    Store.get (Store.step σ st).1 z = Store.get σ z := by
+  cases st with
+  | assign x r =>
+    have hx : z ≠ x := by simpa [targets] using hz
+    simp only [Store.step]; split <;> simp [get_set_ne _ _ _ _ hx]
+  | setIdx x path r =>
+    have hx : z ≠ x := by simpa [targets] using hz
+    simp only [Store.step]
+    split
+    · split <;> simp [get_set_ne _ _ _ _ hx]
+    · rfl
+  | append x path r =>
+    have hx : z ≠ x := by simpa [targets] using hz
+    simp only [Store.step]
+    split
+    · split
+      · rfl
+      · split <;> simp [get_set_ne _ _ _ _ hx]
+      · split <;> simp [get_set_ne _ _ _ _ hx]
+    · rfl
+  | pop y x path =>
+    have h : z ≠ x ∧ z ≠ y := by simpa [targets] using hz
+    exact spec_extract_others σ _ y x z path h.1 h.2
+  | remove y x path i =>
+    have h : z ≠ x ∧ z ≠ y := by simpa [targets] using hz
+    exact spec_extract_others σ _ y x z path h.1 h.2
+  | consume y x path =>
+    have h : z ≠ x ∧ z ≠ y := by simpa [targets] using hz
+    exact spec_extract_others σ _ y x z path h.1 h.2
+  | swap x px y py =>
+    have h : z ≠ x ∧ z ≠ y := by simpa [targets] using hz
+    simp only [Store.step]
+    split
+    · split
+      · split
+        · rfl
+        · split <;> simp [get_set_ne _ _ _ _ h.1, get_set_ne _ _ _ _ h.2]
+      · rfl
+    · rfl
+
+theorem cell_rep {s : State} {σ : Store} (R : Refines s σ) (z : Nat) : Rep s.h (cellOf s z) (Store.get σ z) := by
+  rcases Nat.lt_or_ge z s.cells.length with hz | hz
+  · exact All2.getD z _ _ R.sim hz
+  · have e1 : cellOf s z = .null := by simp [cellOf, List.getD, List.getElem?_eq_none hz]
+    have e2 : Store.get σ z = .null := by
+      have := R.len
+      simp [Store.get, List.getD, List.getElem?_eq_none (by omega : σ.length ≤ z)]
+    rw [e1, e2]; exact Rep_null
+
+/-- **`others_unchanged`**: after any statement, every variable the statement does not address still
+represents exactly the tree it represented before — whatever it shares with the mutated variable. -/
+theorem others_unchanged (s : State) (σ : Store) (st : Stmt) (R : Refines s σ) (z : Nat) (hz : z ∉ targets st) :
+    Rep (step s st).1.h (cellOf (step s st).1 z) (Store.get σ z) := by
+  have := cell_rep (step_refines s σ st R).1 z
+  rwa [spec_others_unchanged σ st z hz] at this
+
+/-- **`alias_unchanged`** (the README promise): make `y` an alias of `x` (`y = x`, the two cells now
+share one allocation), then mutate `x` by ANY statement that does not name `y`: `y` still holds the old
+value of `x`. -/
+theorem alias_unchanged (s : State) (σ : Store) (x y : Nat) (st : Stmt) (R : Refines s σ)
+    (hy : y < s.cells.length) (hz : y ∉ targets st) :
+    Rep (step (step s (.assign y (.atom (.var x)))).1 st).1.h
+      (cellOf (step (step s (.assign y (.atom (.var x)))).1 st).1 y) (Store.get σ x) := by
+  have R1 := (step_refines s σ (.assign y (.atom (.var x))) R).1
+  have := others_unchanged _ _ st R1 y hz
+  have hy' : y < σ.length := by rw [← R.len]; exact hy
+  have e : Store.get (Store.step σ (.assign y (.atom (.var x)))).1 y = Store.get σ x := by
+    simp [Store.step, Store.declared, hy', Store.evalRhs, Store.evalAtom, Store.get, List.getD]
+  rwa [e] at this
+
+/-- Spec level, one level of an index path: the transformed list has the same length and every
+sibling of the addressed element is unchanged -/
+theorem modPath_siblings (φ : Tree → Option (Tree × Tree)) (ts : List Tree) (i : Int) (rest : List Int)
+    (t' r : Tree) (h : modPath φ (.list ts) (i :: rest) = some (t', r)) :
+    ∃ j ts', pyIdx ts.length i = some j ∧ t' = .list ts' ∧ ts'.length = ts.length ∧
+      ∀ k, k ≠ j → ts'.getD k .null = ts.getD k .null := by
+  rw [modPath_list_cons] at h
+  cases hp : pyIdx ts.length i with
+  | none => rw [hp] at h; simp at h
+  | some j =>
+    rw [hp] at h
+    dsimp only at h
+    cases hm : modPath φ (ts.getD j .null) rest with
+    | none => rw [hm] at h; simp at h
+    | some tr =>
+      obtain ⟨t2, r2⟩ := tr
+      rw [hm] at h
+      simp only [Option.some.injEq, Prod.mk.injEq] at h
+      refine ⟨j, ts.set j t2, rfl, h.1.symm, by simp, fun k hk => ?_⟩
+      exact getD_set_ne _ _ _ _ _ (Ne.symm hk)
+
+/-! ### function calls leave the caller's variables alone -/
+
+/-- any heap operation that keeps the frame of variable cells stable preserves every variable -/
+theorem frame_preserves_vars {s : State} {σ : Store} {h' : Heap} (R : Refines s σ)
+    (i : Inv h' s.cells) (st : Stable s.h h' s.cells) : Refines ⟨h', s.cells⟩ σ :=
+  ⟨i, sim_stable (T := []) R.sim (by simpa using st)⟩
+
+/-- **`call_preserves_caller_vars`** for the modelled "mutating-style" builtin: evaluating
+`append(x, b)` (the argument is a clone of the variable's handle, so the variable keeps a reference while
+the callee runs, so the callee's `make_mut` copies) leaves every variable — `x` included — unchanged,
+and returns the extended list. -/
+theorem call_preserves_caller_vars (s : State) (σ : Store) (x : Nat) (b : Atom) (R : Refines s σ) :
+    Refines ⟨(appendOp (evalAtom s (readVar s x).1 b).1 (readVar s x).2 (evalAtom s (readVar s x).1 b).2).1, s.cells⟩ σ ∧
+    (match Store.get σ x with
+     | .list ts => ∃ c, (appendOp (evalAtom s (readVar s x).1 b).1 (readVar s x).2 (evalAtom s (readVar s x).1 b).2).2 = some c ∧
+         Rep (appendOp (evalAtom s (readVar s x).1 b).1 (readVar s x).2 (evalAtom s (readVar s x).1 b).2).1 c
+           (.list (ts ++ [Store.evalAtom σ b]))
+     | _ => (appendOp (evalAtom s (readVar s x).1 b).1 (readVar s x).2 (evalAtom s (readVar s x).1 b).2).2 = none) := by
+  obtain ⟨i1, e1, r1⟩ := evalAtom_spec (s := s) (T := []) (.var x) (by simpa using R.inv) R.sim
+  simp only [evalAtom, Store.evalAtom] at i1 e1 r1
+  have sim1 : All2 (Rep (dup s.h (cellOf s x))) s.cells σ := All2.mono (fun _ _ _ r => r.ext e1) R.sim
+  obtain ⟨i2, e2, r2⟩ := evalAtom_spec (s := s) (h := dup s.h (cellOf s x)) (T := [cellOf s x]) b (by simpa using i1) sim1
+  simp only [readVar]
+  obtain ⟨tx, htx⟩ : ∃ tx, Store.get σ x = tx := ⟨_, rfl⟩
+  rw [htx] at r1
+  simp only [htx]
+  have A := appendOp_spec (F := s.cells) (by simpa using i2.congr (fun k => by simp [occ_cons, occ_append]; omega))
+    (r1.ext e2) r2
+  have st0 : Stable s.h (evalAtom s (dup s.h (cellOf s x)) b).1 s.cells := (e1.trans e2).stable _
+  cases tx with
+  | null =>
+    exact ⟨frame_preserves_vars R (by simpa using A.2.inv) (st0.trans A.2.stable), A.1⟩
+  | int n =>
+    exact ⟨frame_preserves_vars R (by simpa using A.2.inv) (st0.trans A.2.stable), A.1⟩
+  | list ts =>
+    obtain ⟨c, hc, tr, rc⟩ := A
+    refine ⟨frame_preserves_vars R (tr.inv.weaken (fun k => by simp [occ_cons])) (st0.trans tr.stable), c, hc, rc⟩
+
+/-! ### non-vacuity: the README's matrix
+
+`matrix = [[0] ** 10] ** 10; matrix[1][2] = 3` — all ten rows are handles to ONE allocation (strong
+count 10 + the temporary); the assignment copies the outer list's row 1 only. -/
+
+def readmeMatrix : List Stmt :=
+  [ .assign 0 (.rep (.int 0) 10),          -- row := [0] ** 10
+    .assign 1 (.rep (.var 0) 10),          -- matrix := [row] ** 10   (ten aliases of one payload)
+    .setIdx 1 [1, 2] (.atom (.int 3)) ]    -- matrix[1][2] = 3
+
+/-- the Impl really shares: after building the matrix, the row allocation has strong count 11 -/
+example : rcOf (RcHeap.run (State.init 2) (readmeMatrix.take 2)).h 1 = 11 := by decide
+
+/-- … and after the assignment only row 1 of the matrix changed (read back from the heap) -/
+example : (abs (RcHeap.run (State.init 2) readmeMatrix)).map Tree.render =
+    ["[0,0,0,0,0,0,0,0,0,0]",
+     "[[0,0,0,0,0,0,0,0,0,0],[0,0,3,0,0,0,0,0,0,0],[0,0,0,0,0,0,0,0,0,0],[0,0,0,0,0,0,0,0,0,0],[0,0,0,0,0,0,0,0,0,0],[0,0,0,0,0,0,0,0,0,0],[0,0,0,0,0,0,0,0,0,0],[0,0,0,0,0,0,0,0,0,0],[0,0,0,0,0,0,0,0,0,0],[0,0,0,0,0,0,0,0,0,0]]"] := by
+  decide +kernel
+
+/-- the hypotheses of `step_refines` are met by that state (it is reachable), and the theorem's
+conclusion is the non-trivial one: the Impl mutated a 10-fold shared payload, the Spec a plain tree -/
+example : Refines (RcHeap.run (State.init 2) readmeMatrix) (Store.run (Store.Store.init 2) readmeMatrix) :=
+  history_refines_init 2 readmeMatrix
+
+/-- in-place case (count 1): no allocation is made by `x[0] = 5` on an unshared list -/
+example : (RcHeap.run (State.init 1) [.assign 0 (.list [.int 1, .int 2]), .setIdx 0 [0] (.atom (.int 5))]).h.allocs.length = 1 := by
+  decide
+
 end Noulith.C01
